@@ -1,5 +1,5 @@
 (* C16 correspondence harness: cases written by harness/py/checks/c16.py, evaluated with vm_compute. *)
-From Miller Require Import Base.Bytes C16.Model gen.Gen_Zones.
+From Miller Require Import Base.Bytes C16.Model C16.Datediff gen.Gen_Zones.
 Open Scope Z_scope.
 
 Definition ERR : bytes := B "(error)".
@@ -29,5 +29,6 @@ Definition chk (c : Z * Z * Z * bytes * bytes) : bool :=
   | 12 => beqb (sec2localtime_int (zone_of b) a 0) s1
   | 13 => match localtime2sec (zone_of b) s1 with Some v => v =? a | None => false end
   | 14 => match strptime_bits s1 s2 with Some v => (b =? 0) && (v =? a) | None => b =? 1 end
+  | 15 => beqb (dec (datediff a b (unit_of_code (dval (hd "0"%char s1))))) s2   (* s1 = unit code digit, s2 = observed *)
   | _ => false
   end.
